@@ -227,6 +227,7 @@ fn slot_targets<V: Cv>(e: &Entry<V>, vals: &[Val], pi: &[F]) -> Vec<Target> {
         let side = if is_in { "in" } else { "out" };
         let w = V::width(k);
         match (k, v) {
+            (Kind::H, _) => {}
             (Kind::P, Val::P(p)) => {
                 let half = w / 2;
                 out.push(Target { label: format!("{side}@{pos}:x+1"), inst: vec![(1, pos, pi[pos] + F::ONE)], seeds: vec![], free_outputs: false });
@@ -275,6 +276,19 @@ fn slot_targets<V: Cv>(e: &Entry<V>, vals: &[Val], pi: &[F]) -> Vec<Target> {
             }
         }
     }
+    // k_out_of_n_points: every returned point re-targeted to every table entry (another entry with
+    // the honest index cell / the same entry twice must be refused; a different admissible
+    // selection is simply another valid statement)
+    if let Op::KOutOfN { n, k } = &e.op {
+        let w = V::width(Kind::P);
+        for j in 0..*k {
+            let pos = (*n + j) * w;
+            for i in 0..*n {
+                let inst = set(pos, &pi[i * w..(i + 1) * w]);
+                out.push(Target { label: format!("out@{pos}:other-table-entry:{i}"), inst, seeds: vec![], free_outputs: false });
+            }
+        }
+    }
     out.retain(|t| !t.inst.is_empty());
     if !e.op.out_schema().is_empty() {
         let twins: Vec<Target> = out
@@ -320,20 +334,50 @@ pub fn attack_stage<V: Cv>(e: &Entry<V>, input: &Vec<Val>, input_index: usize, k
             _ => false,
         };
     let n_in_pos = e.n_input_positions(input);
-    let (budget, max_targets) = if k >= 14 {
+    let (budget, mut max_targets) = if k >= 14 {
         (&opts.big, opts.max_targets_big)
     } else if V::FOREIGN {
         (&opts.foreign_small, opts.max_targets_foreign)
     } else {
         (&opts.small, opts.max_targets)
     };
+    if matches!(e.op, Op::KOutOfN { .. }) {
+        max_targets = max_targets.max(24);
+    }
     let mut rng = mzv::common::rng_for(seed, &format!("atk-{name}-{input_index}"));
     let mut targets = slot_targets::<V>(e, &vals, &pi);
-    let _ = &mut targets;
+    // k_out_of_n_points: the witnessed index cells (found next to the limbs of the returned points:
+    // same row as a cell copy-tied to the second x-limb of the exposed point, value = honest index)
+    // moved by +-1 with free outputs
+    if let Op::KOutOfN { n, k: kk } = &e.op {
+        let w = V::width(Kind::P);
+        let classes = tables.copy_classes();
+        let table_pts: Vec<&RP> = vals[..*n].iter().map(|v| v.p()).collect();
+        let mut seen = BTreeSet::new();
+        for j in 0..*kk {
+            let pos = (*n + j) * w + 1;
+            let idx = table_pts.iter().position(|t| *t == vals[*n + *kk + j].p()).unwrap_or(0);
+            let idx_f = F::from(idx as u64);
+            let Some((_, members)) = classes.iter().find(|(_, ms)| ms.contains(&CellRef::Instance(1, pos))) else { continue };
+            let rows: BTreeSet<usize> = members.iter().filter_map(|m| if let CellRef::Advice(_, r) = m { Some(*r) } else { None }).collect();
+            let mut found = 0;
+            for r in rows {
+                for c in 0..tables.advice.len() {
+                    if found < 6 && tables.advice_assigned[c][r] && tables.advice[c][r] == idx_f && !members.contains(&CellRef::Advice(c, r)) && seen.insert((c, r)) {
+                        found += 1;
+                        for (lbl, nv) in [("+1", idx_f + F::ONE), ("-1", idx_f - F::ONE)] {
+                            targets.push(Target { label: format!("free-outputs|idx@({c},{r}):{lbl}"), inst: vec![], seeds: vec![((c, r), nv)], free_outputs: true });
+                        }
+                    }
+                }
+            }
+        }
+    }
     if targets.len() > max_targets {
         // fixed priority of attack kinds (outputs before inputs within a kind), then a seeded
         // choice among the rest
-        const PRIO: [(&str, &str); 17] = [
+        const PRIO: [(&str, &str); 18] = [
+            ("ou", "other-table-entry"),
             ("ou", "x+1"),
             ("in", "+1"),
             ("fr", "+1"),
